@@ -100,14 +100,24 @@ def run(ctx):
     common.import_dds()
     from dds import _plotting
     nworlds = 150 if thorough else 30
+    # the whole matrix of load shapes (where the load sits x who produces the path x when), each under both entry
+    # styles, then random pipelines (every 5th with loads)
+    cases = []
+    for placement in ("root", "helper", "kept", "datafn", "feeds_keep"):
+        for producer in ("datafn", "keep"):
+            for order in ("before", "earlier"):
+                for ek in ("eval", "keep"):
+                    w, _ = progs.gen_load_world(rng, placement=placement, producer=producer, order=order)
+                    cases.append((w, True, ek))
     for wi in range(nworlds):
         if wi % 5 == 4:
             w, _ = progs.gen_load_world(rng, order=rng.choice(["before", "earlier"]))
-            with_loads = True
+            cases.append((w, True, None))
         else:
-            w = progs.gen_world(rng)
-            with_loads = False
-        entry = {"kind": "eval", "fun": "f0"} if rng.random() < 0.6 else {"kind": "keep", "fun": "f0", "path": "/top"}
+            cases.append((progs.gen_world(rng), False, None))
+    for wi, (w, with_loads, ek) in enumerate(cases):
+        ek = ek or ("eval" if rng.random() < 0.6 else "keep")
+        entry = {"kind": "eval", "fun": "f0"} if ek == "eval" else {"kind": "keep", "fun": "f0", "path": "/top"}
         with pipeline.Session("memory", tag="c18") as s:
             s.set_world(w)
             msteps = [{"set_store": "dict"}, {"world": progs.model_world(w, s.extmod)}]
@@ -217,7 +227,7 @@ def run(ctx):
     kf_witnesses.run_witness(res, "C18-KF1", kf_witnesses.c18_two_paths_one_signature,
                              "two paths kept with one signature appear as a single node of the graph")
     pipeline.close_ref()
-    res.rule = ("%d generated pipelines (every 5th with loads) x entry {eval with DOT export, keep}; nesting depth <= 8, shared sub-nodes, run-time-"
+    res.rule = ("40 load shapes (placement x producer x order x entry) + %d generated pipelines (every 5th with loads) x entry {eval with DOT export, keep}; nesting depth <= 8, shared sub-nodes, run-time-"
                 "argument keeps; one case = one pipeline, distinct by its signature map" % nworlds)
     res.violations = [v for v in res.violations if not v.get('kf')][:5] + [v for v in res.violations if v.get('kf')]
     return res
